@@ -31,7 +31,7 @@ theorem C13_error_bound (cfg : ECfg) (key depth saved : Nat) (ex : Exc) (s' s2 :
   unfold onErrorHandle at h
   simp only [Option.some.injEq] at h
   subst h
-  exact ⟨s'.x.token.map (fun t => Tok.location cfg.src { str := [], pos := t.1 }), by simp [Env.get, lookupAssoc], by simp⟩
+  exact ⟨s'.x.token.map (fun t => Tok.location (cfg.locate t.1).1 { str := [], pos := (cfg.locate t.1).2 }), by simp [Env.get, lookupAssoc], by simp⟩
 
 /-- with the shared variable (the code before the fix) the handler can cut at the wrong place:
 concrete witness — an inner handler's saved length is used by the outer one -/
